@@ -18,7 +18,7 @@ func init() {
 	run.Register(&run.Property{
 		ID:    "C14",
 		Title: "Area, Length and Centroid equal the exact measures of the point set",
-		Rule: "cases = valid geometries of every type x coordinate type with 0-3 holes, empty members and mixed-dimension collections from D-small/D-large/D-gp; each case compares Area (plain, signed, with transform), Length and Centroid with exact rational / 200-bit values and checks invariance under ring rotation, Reverse, ForceCW/CCW, member permutation and Z/M changes, additivity over members and translation behaviour. " +
+		Rule: "[added in rounds 9-11: non-affine transform option; invariance under independent Z/M at every control point] cases = valid geometries of every type x coordinate type with 0-3 holes, empty members and mixed-dimension collections from D-small/D-large/D-gp; each case compares Area (plain, signed, with transform), Length and Centroid with exact rational / 200-bit values and checks invariance under ring rotation, Reverse, ForceCW/CCW, member permutation and Z/M changes, additivity over members and translation behaviour. " +
 			"non-trivial = geometry with positive area or length; distinct by WKB",
 		Assumptions:      []string{"tolerance 1e-9*M (1e-9*M^2 for area) as the statement gives", "collections are measured additively over members (overlapping members count twice), as Area/Length are documented"},
 		MinNontrivial:    500,
